@@ -23,10 +23,10 @@ def norm(j):
         return [norm(x) for x in j]
     if isinstance(j, dict):
         return {k: (sorted(v) if k in ("runtime_reqs", "es", "extension_delta", "extensions") and isinstance(v, list) and all(isinstance(x, str) for x in v) else norm(v)) for k, v in j.items()}
-    return j
+    return jleaf(j)
 
 from mc.engine import e2
-from mc.engine.core import Collector, Result, Violation
+from mc.engine.core import Collector, Result, Violation, jleaf, jstrict
 
 PLAN = {
     "quick": ([("D3", 2), ("C2", 2), ("M5", 2), ("D1", 2), ("D2", 2), ("D0", 2), ("C1", 2), ("L1", 2), ("G1", 2), ("M1", 2), ("M2", 2)], 1),
@@ -63,7 +63,7 @@ def structure(h):
                 "op": enc_op(d.op),
                 "parent": pos[d.parent.idx] if d.parent is not None else None,
                 "children": [pos[c.idx] for c in h.children(n)],
-                "metadata": dict(d.metadata),
+                "metadata": jstrict(dict(d.metadata)),
                 "out_links": sorted(links.items()),
                 "in_links": sorted(inl.items()),
                 "order_out": sorted(pos[m.idx] for m in h.outgoing_order_links(n)),
